@@ -445,6 +445,15 @@ func genC10(t *rapid.T) C10Case {
 	now := genNowRealistic(t, l)
 	c := C10Case{Now: now, ArchiveID: -1}
 	c.Files = genTree(t, l, now, true)
+	if rapid.IntRange(0, 24).Draw(t, "manyFiles") == 0 {
+		// an item with 60-140 files (batching / descriptor limits in the readers); cheap to describe: filled
+		// files whose values differ per file
+		d := c.Files[0].Dir
+		n := rapid.IntRange(60, 140).Draw(t, "manyCount")
+		for i := 0; i < n; i++ {
+			c.Files = append(c.Files, TreeFile{Dir: d, Name: fmt.Sprintf("h%03d.wsp", i), Spec: FileSpec{L: l, Fill: 1 + int64(i%5), FillBase: F64(float64(i) / 8)}})
+		}
+	}
 	c.ItemPattern, c.SrcPattern = genTreePatterns(t, c.Files)
 	c.From, c.Until = genCLIWindow(t, l, now)
 	if rapid.IntRange(0, 2).Draw(t, "oneArchive") == 0 {
